@@ -92,8 +92,13 @@ def run(tier):
     import re
     for sc, (what, cfg, skip), r in zip(scs, meta, results):
         ck.evaluated()
-        if r.get('harness_error') or r.get('hang'):
-            raise common.Machinery('run failed: %r' % (r.get('harness_error') or 'hang'))
+        if r.get('harness_error'):
+            raise common.Machinery('run failed: %r' % r['harness_error'])
+        if r.get('hang') or r.get('runaway'):
+            ck.violation('runaway-connections', '[%s] the audit kept opening connections (%s; the fake network refuses after 1500)'
+                         % (what, 'killed after 60 s' if r.get('hang') else '%d connections' % r.get('nconn', 0)), {'scenario': what, 'argv': sc['argv']})
+            items.append(None)
+            continue
         ck.nontrivial(what)
         srv = audit.srv_of(cfg, skip, dh)
         mb = re.search(r'^\(gen\) banner: (.*)$', r.get('stdout') or '', re.M)
@@ -112,8 +117,9 @@ def run(tier):
             ck.violation('rate-check-ran-while-skipped', '[%s] %d rate connections with --skip-rate-test' % (what, len(nb)), replay)
         if r.get('open'):
             ck.violation('sockets-open-at-exit', '[%s] %d sockets neither closed nor finalised at exit' % (what, r['open']), replay)
-    verdicts = audit.validate(ck, items)
-    for (what, cfg, skip), (srv, r), (ok, info) in zip(meta, items, verdicts):
+    live = [(m, it) for m, it in zip(meta, items) if it is not None]
+    verdicts = audit.validate(ck, [it for _, it in live])
+    for (what, cfg, skip), (srv, r), (ok, info) in zip([m for m, _ in live], [it for _, it in live], verdicts):
         if ok:
             ck.cov['traces_validated_against_impl'] += 1
             continue
